@@ -65,3 +65,27 @@ def glyph_leg(chk, hexe, mexe, fonts, per_font):
             ndis += 1
             chk.tie_break('correspondence:glyphcache', 'GlyphCache::glyph and Model/MemoModel.v disagree: impl %s model %s' % (got[:300], exp[:300]), c[:300])
     return len(cases), ndis
+
+
+def dying_chars(hexe, fonts, per_font=160):
+    """characters whose one-character text makes gr_make_seg give up (a rule program dies: the machine ends in died_early, the insert
+    budget runs out ...): font -> [code points].  Found by asking the real library, so that histories and thread workloads can include
+    the texts on which shaping fails."""
+    import vlib
+    from props import shapegen as S
+    cases, reps = [], []
+    for f in fonts:
+        rep = [c for c in S.repertoire(vlib.REPO, f) if c < 0x110000][:per_font]
+        reps.append(rep)
+        cases.append('dy%d api %s 0 file - %s' % (len(cases), f, ' '.join('seg:0:32:0:-:-:%08x' % c for c in rep)))
+    _, il, _ = vlib.run_pair(None, hexe, cases, timeout=1200)
+    out = {}
+    for f, rep, l in zip(fonts, reps, il):
+        r = results(l) if l else None
+        if not r or r[0] != 'face=ok':
+            continue
+        segs = [p for p in r[1] if p.startswith('seg=')]
+        d = [c for c, p in zip(rep, segs) if p.startswith('seg=NULLSEG')]
+        if d:
+            out[f] = d
+    return out
